@@ -43,6 +43,13 @@ def run(repo, rep):
     rep.run_borrowed(_c02, {"C02-f": "C12-j"}, repo, only_sites=("propose_weight_buffering", "encode_weight_and_scale_tensor"))
     rep.clause("C12-k", "all operators of a cascade are live in one time slot (they run interleaved stripe by stripe): the slot recorded for the cascade is the slot the current operator's tensors were marked with")
     rule_cascade_slot(repo, rep)
+    rep.clause("C12-l", "emptiness of consumer lists is tested with len(): the None marker of a subgraph output counts as a consumer (a graph input that is only returned keeps its start-up placeholder and its live range)")
+    from .shared import consumer_truth_lint, pass_packing_automaton
+
+    if consumer_truth_lint(repo, rep, "C12-l") < 3:
+        raise AnalysisError("fewer than 3 len() tests of consumer lists found")
+    rep.clause("C12-m", "pass packing: a CPU pass holds one main operator (tensors between operators of one pass are never allocated) [automaton shared with C03-k]")
+    pass_packing_automaton(repo, rep, "C12-m")
     rep.run_borrowed(c11, {"C11-b": "C12-a"}, repo, only_sites=("data_type",))
     rule_round5(repo, rep)
     rule_subgraph_refs(repo, rep)
